@@ -252,7 +252,29 @@ fn check_bayes(c: &RtCase, ctx: &mut Ctx) -> Result<(), Fail> {
     let y2cat: Vec<f64> = c.y2_cls.iter().map(|v| if *v < 0.0 { 1.0 } else { 0.0 }).collect();
     let alpha = 0.1 + c.param;
     match c.which {
-        0 => model!(ctx, "gaussian_nb", GaussianNB::fit(&x, &c.y_cls, GaussianNBParameters::default()), GaussianNB::fit(&x2, &c.y2_cls, GaussianNBParameters::default()), |m: &GaussianNB<f64, DM>| pv(m.predict(&q))),
+        0 => {
+            // A class whose rows agree in some feature has zero variance there; the Gaussian
+            // log-likelihood is then 0/0 and `predict` is undefined (it panics on the NaN).  That is
+            // outside what a round trip can be asked to preserve, so the observable of such a model
+            // is its stored statistics instead of its predictions.
+            let degenerate = {
+                let mut classes: Vec<f64> = c.y_cls.clone();
+                classes.sort_by(|a, b| a.partial_cmp(b).unwrap());
+                classes.dedup();
+                classes.iter().any(|cl| {
+                    let rows: Vec<usize> = (0..c.x.r).filter(|i| c.y_cls[*i] == *cl).collect();
+                    (0..c.x.c).any(|j| rows.iter().all(|i| c.x.at(*i, j) == c.x.at(rows[0], j)))
+                })
+            };
+            ctx.label_if(degenerate, "gaussian_nb/zero-variance-class");
+            model!(ctx, "gaussian_nb", GaussianNB::fit(&x, &c.y_cls, GaussianNBParameters::default()), GaussianNB::fit(&x2, &c.y2_cls, GaussianNBParameters::default()), |m: &GaussianNB<f64, DM>| {
+                if degenerate {
+                    Ok(m.theta().iter().chain(m.var().iter()).flatten().cloned().chain(m.class_priors().iter().cloned()).collect())
+                } else {
+                    pv(m.predict(&q))
+                }
+            })
+        }
         1 => model!(ctx, "multinomial_nb", MultinomialNB::fit(&xc, &c.y_cls, MultinomialNBParameters::default().with_alpha(alpha)), MultinomialNB::fit(&x2c, &c.y2_cls, MultinomialNBParameters::default().with_alpha(alpha)), |m: &MultinomialNB<f64, DM>| pv(m.predict(&qc))),
         2 => model!(ctx, "bernoulli_nb", BernoulliNB::fit(&x, &c.y_cls, BernoulliNBParameters::default().with_alpha(alpha).with_binarize(0.5)), BernoulliNB::fit(&x2, &c.y2_cls, BernoulliNBParameters::default().with_alpha(alpha).with_binarize(0.5)), |m: &BernoulliNB<f64, DM>| pv(m.predict(&q))),
         _ => model!(ctx, "categorical_nb", CategoricalNB::fit(&xc, &ycat, CategoricalNBParameters::default().with_alpha(alpha)), CategoricalNB::fit(&x2c, &y2cat, CategoricalNBParameters::default().with_alpha(alpha)), |m: &CategoricalNB<f64, DM>| pv(m.predict(&dm(&counts(&c.x, 2.0))))),
